@@ -64,12 +64,17 @@ def gen_stall(rng, info, roles=None):
 def gen_net(rng):
     r = rng.random()
     chunk = 'whole' if r < 0.35 else 'few' if r < 0.7 else 'crlf' if r < 0.95 else 'bytes'
-    return {'chunk': chunk, 'latency': rng.choice(('const', 'uniform', 'heavy', 'heavy', 'outage'))}
+    # short_send only matters to code that calls socket.send() (sendall() loops by itself)
+    return {'chunk': chunk, 'latency': rng.choice(('const', 'uniform', 'heavy', 'heavy', 'outage')),
+            'short_send': rng.choice((0.0, 0.0, 0.3, 0.8))}
 
 
 def gen_sched(rng, info, force=None):
     strat = force or rng.choice(('walk', 'walk', 'pct', 'pct', 'stall', 'stall', 'stall', 'fifo'))
-    sched = {'seed': rng.randrange(1 << 40), 'net': gen_net(rng), 'stalls': []}
+    sched = {'seed': rng.randrange(1 << 40), 'net': gen_net(rng), 'stalls': [],
+             # the default text encoding of the machine the table manager runs on (what a bare
+             # open(path, 'w') uses): UTF-8 mostly, now and then a legacy one
+             'fs_encoding': rng.choice((None, None, None, None, None, 'ascii', 'latin-1'))}
     # Threads the tree under test starts besides its connection threads (a writer thread, pool
     # workers, a timer) are where a refactoring adds new concurrency: when the pilot run had any,
     # half of the schedules are aimed at them -- either they are starved (they run, in a shuffled
